@@ -9,7 +9,7 @@ PID = "C08"
 RULE = ("case = (byte order, width 1..64, position 0..511, set switches (bitNumbering in {None,0,1} x startLittle), "
         "get switches, probe bit k); thorough enumerates byte order x width x position x the 4x4 explicit switch "
         "values completely (1 048 576 set/get pairs) plus the None defaults; quick takes a seeded sample plus all "
-        "The signal has a history: it stood at the position whose internal number equals the number set next and was queried there in every notation. widths at byte boundaries. Non-trivial = distinct case in which the position is accepted and the signal "
+        "In half of the cases the byte order is assigned after construction. The signal has a history: it stood at the position whose internal number equals the number set next and was queried there in every notation. widths at byte boundaries. Non-trivial = distinct case in which the position is accepted and the signal "
         "is wider than one bit or a renumbering takes place.")
 EXHAUSTIVE = {"thorough": True, "quick": False}
 PARTIAL = []
@@ -72,7 +72,12 @@ def neighbours(case, rng, shard, nshards):
 
 def observe(case):
     little, size, start, bns, sls, bng, slg, k = case["c"]
-    sig = cm.Signal("s", size=size, is_little_endian=little, is_signed=False)
+    if (k // 2) % 2 == 0:
+        sig = cm.Signal("s", size=size, is_little_endian=little, is_signed=False)
+    else:
+        # the byte order is assigned after construction (as some readers do)
+        sig = cm.Signal("s", size=size, is_little_endian=not little, is_signed=False)
+        sig.is_little_endian = little
     # the signal has a history: it stood at the position whose internal number equals the number that is set next, and it was
     # queried there in every notation (what is set and queried afterwards must not remember that)
     prior = start if k % 2 == 0 else 0
